@@ -145,13 +145,13 @@ func GenGrammar(r *vh.Rand, conf GenConf) *Grammar {
 // inputs: random derivations of the grammar, then near-miss edits
 
 var classText = map[string][]string{
-	"IDENT": {"a", "b", "x", "if", "foo"}, "INT": {"1", "42", "0"}, "FLOAT": {"1.5", "2.0"},
-	"CHAR": {"'c'", "'+'"}, "STRING": {`"s"`, "`r`"}, "LPAREN": {"("}, "RPAREN": {")"},
+	"IDENT": {"a", "b", "x", "if", "foo", "données", "日本語", "é"}, "INT": {"1", "42", "0"}, "FLOAT": {"1.5", "2.0"},
+	"CHAR": {"'c'", "'+'", "'é'", "'世'"}, "STRING": {`"s"`, "`r`", `"é"`, "`日本`", `"naïve s"`}, "LPAREN": {"("}, "RPAREN": {")"},
 	"LBRACK": {"["}, "RBRACK": {"]"}, "IMAG": {"2i"}, "RAT": {"3r"},
 }
 
 var soup = []string{"a", "b", "x", "if", "1", "42", "1.5", "'c'", `"s"`, "`r`", "+", "-", "*", "/", ",", ";", "(", ")",
-	"=", "++", "+=", ":", ".", "foo", "\n"}
+	"=", "++", "+=", ":", ".", "foo", "\n", "données", "日本語", `"é"`, "'é'", "`日本`", "é"}
 
 const glue = "\x00" // "no blank before the next token"
 
@@ -179,9 +179,9 @@ func (d *deriver) derive(n *Node, depth int, out *[]string) {
 	case "class":
 		*out = append(*out, d.r.Pick(classText[n.S]))
 	case "qstr":
-		*out = append(*out, `"q"`)
+		*out = append(*out, d.r.Pick([]string{`"q"`, `"é"`, `"日本"`}))
 	case "rawstr":
-		*out = append(*out, "`w`")
+		*out = append(*out, d.r.Pick([]string{"`w`", "`é`", "`données`"}))
 	case "op", "chr", "kw":
 		*out = append(*out, n.S)
 	case "true", "space":
@@ -271,9 +271,16 @@ func GenInput(r *vh.Rand, g *Grammar, maxWords int) string {
 			continue
 		}
 		if !noBlank {
-			if r.Chance(85) {
+			switch k := r.Intn(100); {
+			case k < 78:
 				b.WriteByte(' ')
+			case k < 84:
+				b.WriteString("/*é*/") // a comment between tokens (multi-byte, no blank)
+			case k < 87:
+				b.WriteString(" /* c */ ")
 			}
+		} else if w != "" && b.Len() > 0 && r.Chance(6) {
+			b.WriteString("/*é*/") // a comment at a junction: the tokens no longer touch
 		}
 		b.WriteString(w)
 		noBlank = false
